@@ -139,8 +139,54 @@ func newE2(p *Prog) *e2 {
 	return e
 }
 
-// regDir classifies a call as a registration: "read", "write" or "".
+// regDir classifies a call as a registration: "read", "write" or "" - the poller / IO operation itself, or a call of
+// a small helper that installs the handler and returns the result of that operation (armRead() error).
 func (e *e2) regDir(in ssa.Instruction) string {
+	if d := e.regDirBase(in); d != "" {
+		return d
+	}
+	if call, ok := in.(*ssa.Call); ok {
+		if d, _ := e.regWrapper(call.Call.StaticCallee()); d != "" {
+			return d
+		}
+	}
+	return ""
+}
+
+// regWrapper: fn is a helper (not part of the pinned API) that performs exactly one registration and returns its result
+// on every path.
+func (e *e2) regWrapper(fn *ssa.Function) (string, ssa.CallInstruction) {
+	if fn == nil || fn.Blocks == nil || fn.Parent() != nil || fn.Object() == nil {
+		return "", nil
+	}
+	if fn.Object().Exported() && knownOnPinnedTree(fn) {
+		return "", nil
+	}
+	res := fn.Signature.Results()
+	if res.Len() != 1 || !types.Identical(res.At(0).Type(), types.Universe.Lookup("error").Type()) {
+		return "", nil
+	}
+	var inner ssa.CallInstruction
+	dir := ""
+	n := 0
+	eachInstr(fn, func(x ssa.Instruction) {
+		if d := e.regDirBase(x); d != "" {
+			n++
+			dir, inner = d, x.(ssa.CallInstruction)
+		}
+	})
+	if n != 1 {
+		return "", nil
+	}
+	for _, r := range returnsOf(fn) {
+		if len(r.Results) != 1 || resolveCell(r.Results[0]) != inner.(ssa.Value) {
+			return "", nil
+		}
+	}
+	return dir, inner
+}
+
+func (e *e2) regDirBase(in ssa.Instruction) string {
 	call, ok := in.(ssa.CallInstruction)
 	if !ok {
 		return ""
@@ -510,6 +556,13 @@ func (e *e2) installedHandler(reg ssa.CallInstruction, dir string) (ssa.Value, s
 		want = e.writeEv
 	}
 	fn := reg.Parent()
+	if rc, ok := reg.(*ssa.Call); ok && e.regDirBase(rc) == "" {
+		// the registration goes through a helper that installs the handler itself
+		if _, inner := e.regWrapper(rc.Call.StaticCallee()); inner != nil {
+			reg = inner
+			fn = inner.Parent()
+		}
+	}
 	var best ssa.CallInstruction
 	eachInstr(fn, func(in ssa.Instruction) {
 		if !isCallTo(in, e.slotSet) {
